@@ -39,7 +39,7 @@ func (fpi *FilePathItem) Write(b []byte) (n int, err error) {
 		return n, errors.New("buflen too small")
 	}
 	fpi.Len = b[2]
-	fpi.Name = b[fileItemMinLen : fpi.Len+fileItemMinLen]
+	fpi.Name = b[fileItemMinLen : int(fpi.Len)+fileItemMinLen]
 
 	return int(fpi.Len) + fileItemMinLen, nil
 }
